@@ -1,8 +1,8 @@
 SPECIFICATION Spec
 CONSTANTS MaxNum = 3
-  Vals = {"a"}
+  Vals = {"a", "b"}
   OBJSTM = FALSE
-  SEEKABLE = FALSE
+  SEEKABLE = TRUE
   MaxOps = 4
   Threshold = 2
   MaxMembers <- SmallMembers
